@@ -2311,14 +2311,18 @@ class DiskObjectStore(PackBasedObjectStore):
             ):
                 pass
         except BaseException:
-            final_pack.close()
-            with suppress(FileNotFoundError):
-                os.remove(target_pack_path)
-            with suppress(FileNotFoundError):
-                os.remove(target_index_path)
-            if self.pack_write_bitmaps and refs:
+            try:
+                final_pack.close()
+            finally:
+                # Whatever close() does, the rejected pack must not stay
+                # visible.
                 with suppress(FileNotFoundError):
-                    os.remove(pack_base_name + ".bitmap")
+                    os.remove(target_pack_path)
+                with suppress(FileNotFoundError):
+                    os.remove(target_index_path)
+                if self.pack_write_bitmaps and refs:
+                    with suppress(FileNotFoundError):
+                        os.remove(pack_base_name + ".bitmap")
             raise
         # _pack_cache is keyed by the full basename (/path/to/pack-HASH -> pack-HASH)
         self._add_cached_pack(os.path.basename(pack_base_name), final_pack)
